@@ -11,7 +11,8 @@ an arbitrary factor.  Hence every read of a foreign slot inside the per-prime lo
     * be an in-place operation under its OWN prime (index expression equal to the slot).
 Slots are decided symbolically (polynomials over the chain length and loop variables, r_slotmod.Sym).
 """
-from facts import walk, callee, strip, local_of, root_local, Tree, Defs
+from facts import walk, callee, strip, local_of, root_local, Tree, Defs, target_key
+from dealias import dealiased
 from r_slotmod import Sym, padd, pmul, pconst, patom, pshow, atoms_of
 
 R = "R-RESDOM"
@@ -72,7 +73,7 @@ def run(facts, rep, files, floor=0):
         it = facts.items.get(p)
         if not it or it.get("file") not in files:
             continue
-        body = facts.hir[p]
+        body = dealiased(facts.hir[p])
         fors = [x for x in walk(body) if x.get("k") == "For" and x["pat"].get("k") == "PBind"]
         if not fors:
             continue
@@ -199,7 +200,7 @@ def run_operand_index(facts, rep, files, floor=0):
         it = facts.items.get(p)
         if not it or it.get("file") not in files:
             continue
-        body = facts.hir[p]
+        body = dealiased(facts.hir[p])
         sym = Sym(facts, body)
         _LETS.clear()
         _LETS.update(sym.lets)
@@ -225,6 +226,10 @@ def run_operand_index(facts, rep, files, floor=0):
                 continue
             a0 = x["args"][0]
             if not (a0.get("k") == "Ref" and a0.get("mut")):
+                continue
+            # a `&mut` alias handed to a reading parameter (`modulo(last, ..)`) is not an in-place operation
+            cit = facts.items.get(target_key(f))
+            if cit and cit.get("params") and not cit["params"][0].get("ty", "&mut").lstrip().startswith("&mut"):
                 continue
             oe = _offset_exprs(a0)
             if oe is None:
@@ -282,7 +287,7 @@ def run_half(facts, rep, files=("src/util/rns.rs",), floor=0):
         it = facts.items[p]
         if it["file"] not in files or "::tests::" in p:
             continue
-        body = facts.hir[p]
+        body = dealiased(facts.hir[p])
         for x in walk(body):
             if not (x.get("k") == "Let" and x["pat"].get("k") == "PBind" and "init" in x):
                 continue
@@ -336,7 +341,7 @@ def run_negskip(facts, rep, files=("src/util/rns.rs",)):
         it = facts.items[p]
         if it["file"] not in files or "::tests::" in p:
             continue
-        body = facts.hir[p]
+        body = dealiased(facts.hir[p])
         k = 0
         for x in walk(body):
             if x.get("k") != "If":
@@ -361,4 +366,85 @@ def run_negskip(facts, rep, files=("src/util/rns.rs",)):
                               ((callee(negs[0]) or {}).get("name") or negs[0].get("name")), facts.loc(p, negs[0]))
             else:
                 rep.ok(RN, key, "the identity shortcut skips a multiplication only", facts.loc(p, x), nontrivial=False)
+    return n
+
+
+def run_parity(facts, rep, files=("src/util/rns.rs",)):
+    """R-RESDOM(parity) [N]: centring against half of an EVEN modulus is inclusive.
+
+    `if x > T { x - M }` with T = M >> 1 maps residues to (-M/2, M/2] for even M and to [-(M-1)/2, (M-1)/2] for odd M; the
+    centred range the Montgomery-style reduction is specified with is [-M/2, M/2): for an even modulus the residue M/2 is
+    negative and the comparison must be `>=`.  The parity of a modulus is decided only where its constructor argument is a
+    constant the rule can evaluate (`Modulus::new(1 << 32)` for m_tilde); thresholds of other moduli are not judged here.
+    With the strict comparison the single residue M/2 is taken as +M/2 and the routine's output is off by exactly q for
+    that input — one value in 2^32 per coefficient, which no test reaches."""
+    from r_admit import _ev
+    RP = "R-RESDOM(parity)"
+    rep.rule(RP, "a centring comparison against half of a modulus whose constant definition is even is inclusive (`>=`)")
+    # constant moduli: `let NAME = Modulus::new(<const>)` anywhere in the files
+    const_mod = {}
+    for p in sorted(facts.hir):
+        it = facts.items[p]
+        if it["file"] not in files or "::tests::" in p:
+            continue
+        for x in walk(facts.hir[p]):
+            if x.get("k") == "Let" and x["pat"].get("k") == "PBind" and "init" in x:
+                c = strip(x["init"])
+                f = callee(c) or {}
+                if c.get("k") == "Call" and f.get("name") == "new" and "Modulus" in f.get("def", "") and "Operand" not in f.get("def", "") \
+                        and c["args"]:
+                    v = _ev(c["args"][0], {}, {})
+                    if isinstance(v, int) and not isinstance(v, bool):
+                        const_mod.setdefault(x["pat"]["name"], set()).add(v)
+    n = 0
+    for p in sorted(facts.hir):
+        it = facts.items[p]
+        if it["file"] not in files or "::tests::" in p:
+            continue
+        body = facts.hir[p]
+        for x in walk(body):
+            if not (x.get("k") == "Let" and x["pat"].get("k") == "PBind" and "init" in x):
+                continue
+            e = strip(x["init"])
+            if not (e.get("k") == "Bin" and ((e.get("op") == ">>" and _ev(e["b"], {}, {}) == 1) or
+                                             (e.get("op") == "/" and _ev(e["b"], {}, {}) == 2))):
+                continue
+            a = strip(e["a"])
+            if not (a.get("k") == "MCall" and a.get("name") == "value"):
+                continue
+            m = strip(a["recv"])
+            name = m.get("name") if m.get("k") == "Field" else (local_of(m) or (None, None))[1]
+            vals = const_mod.get(name)
+            if not vals or len(vals) != 1:
+                continue
+            mv = next(iter(vals))
+            lid = x["pat"]["lid"]
+            k_c = 0
+            for y in walk(body):
+                if y.get("k") != "Bin" or y.get("op") not in (">", ">=", "<", "<="):
+                    continue
+                la, lb = local_of(y["a"]), local_of(y["b"])
+                if la and la[0] == lid:
+                    op = {"<": ">", "<=": ">=", ">": "<", ">=": "<="}[y["op"]]      # T op x  ==  x op' T
+                elif lb and lb[0] == lid:
+                    op = y["op"]
+                else:
+                    continue
+                n += 1
+                rep.fn(p)
+                key = "%s/%s#%d" % (p, x["pat"]["name"], k_c)
+                k_c += 1
+                if mv % 2 == 0 and op in (">", "<="):
+                    rep.violation(RP, key, "`%s` is half of `%s` = %d, an even modulus, and the centring comparison against it is "
+                                  "strict: the residue %d (its own negative) is taken as +%d instead of -%d, so the routine's output "
+                                  "differs from the centred reduction by one multiple of the reduced modulus for that input" %
+                                  (x["pat"]["name"], name, mv, mv // 2, mv // 2, mv // 2), facts.loc(p, y))
+                elif mv % 2 == 1 and op in (">=", "<"):
+                    rep.violation(RP, key, "`%s` is half of `%s` = %d, an odd modulus, and the centring comparison against it is "
+                                  "inclusive: the residue %d is taken for negative and leaves the centred range" %
+                                  (x["pat"]["name"], name, mv, mv // 2), facts.loc(p, y))
+                else:
+                    rep.ok(RP, key, "comparison `x %s %s` matches the parity of %s = %d" % (op, x["pat"]["name"], name, mv),
+                           facts.loc(p, y), sample={"function": p, "modulus": name, "value": mv})
+    rep.floor(RP, "centring comparisons against half of a constant modulus", n, 1)
     return n
